@@ -9,6 +9,7 @@ only lower-numbered named templates or themselves with a decreasing counter."""
 from vlib import xpgen
 
 MODES = [None, "m1", "m2"]
+OPEN_CLASSES = set()     # keys of repaired findings whose class the generators should produce (set by props/C01.py)
 ELS = ["a", "b", "c", "d"]
 ATS = ["x", "y", "id", "n"]
 
@@ -416,6 +417,8 @@ class Gen:
                 out.append((nme, vd))
         if r.random() < 0.15:
             out.append(("unused", ("select", lit("u"))))
+        if "K-C01-1" in OPEN_CLASSES and r.random() < 0.3:
+            out.append((r.choice(["g1", "g2", "g3"]), ("select", lit("wp"))))
         return out
 
     def apply(self, cx, env, d):
@@ -528,6 +531,8 @@ class Gen:
             cx = {"rank": rank, "down": True, "named": False}
             env = dict(genv)
             names = r.sample(["pa", "pb"], r.choice([0, 0, 1, 2]))
+            if "K-C01-1" in OPEN_CLASSES and r.random() < 0.3:
+                names.append(r.choice(["g1", "g2", "g3"]))     # a param may shadow a top-level variable
             params = self.template_params(cx, env, 2, names)
             d = {"match": self.pattern(), "mode": MODES[rank], "params": params, "body": self.body(cx, env, r.choice([1, 2, 2, 3]))}
             if r.random() < 0.3:
@@ -1011,6 +1016,8 @@ class VarsGen:
                 out.append(("for-each", sel, [], self.body(vis, loc, d - 1, named_idx, in_rtf)))
             elif k < 0.9 and not in_rtf:
                 wps = [(n, self.value(vis)) for n in r.sample(["pa", "pb", "pc"], r.choice([0, 1, 1, 2, 3]))]
+                if "K-C01-1" in OPEN_CLASSES and r.random() < 0.4:
+                    wps.append((r.choice(["g1", "g2"]), self.value(vis)))
                 r.shuffle(wps)
                 out.append(("apply", P([("child", N(None), [])]) if r.random() < 0.8 else None, r.choice([None, None, "m1"]), [], wps))
             elif not in_rtf:
@@ -1026,6 +1033,8 @@ class VarsGen:
     def template(self, match, mode, name, named_idx):
         r = self.r
         pnames = r.sample(["pa", "pb", "pc"], r.choice([0, 0, 1, 2, 3]))
+        if "K-C01-1" in OPEN_CLASSES and r.random() < 0.4:
+            pnames.append(r.choice(["g1", "g2"]))
         params = [(n, ("select", ("lit", self.lit()))) for n in pnames]
         self.budget = max(self.budget, 6)
         vis = set(self.globals) | set(pnames)
